@@ -3,6 +3,7 @@ Helper lemmas for Props/C05Bodies.lean: the monad laws used to normalise `evalBo
 translated body, and loop lemmas relating the translated loops to the shapes used in Model/Emu.lean.
 -/
 import VaxisModel.Model.EmuBody
+import VaxisModel.Model.EmuBodyRange
 import VaxisModel.Gen.TermBodies
 import VaxisModel.Lemmas.EmuBasic
 
@@ -58,6 +59,29 @@ theorem cellCopy_same_row (g : Grid) (r c c2 : Int) :
       setI g r row') := by
   unfold cellCopy
   cases h : getI g r <;> simp [ok_bind, err_bind]
+
+theorem andThen_norm (s : Frame) (k : Frame → Bool) : andThen (.ok (s, .norm)) k = k s := rfl
+theorem andThen_ret (s : Frame) (k : Frame → Bool) : andThen (.ok (s, .ret)) k = true := rfl
+theorem andThen_brk (s : Frame) (k : Frame → Bool) : andThen (.ok (s, .brk)) k = true := rfl
+theorem andThen_cont (s : Frame) (k : Frame → Bool) : andThen (.ok (s, .cont)) k = true := rfl
+theorem andThen_err (p : Panic) (k : Frame → Bool) : andThen (.error p) k = true := rfl
+theorem andThen_ite (c : Prop) [Decidable c] (a b : M (Frame × Sig)) (k : Frame → Bool) :
+    andThen (if c then a else b) k = if c then andThen a k else andThen b k := by split <;> rfl
+theorem andThen_bind {α : Type} (x : M α) (f : α → M (Frame × Sig)) (k : Frame → Bool) :
+    andThen (x >>= f) k = andThenM x (fun a => andThen (f a) k) := by
+  cases x <;> rfl
+theorem andThenM_ok {α : Type} (a : α) (k : α → Bool) : andThenM (.ok a) k = k a := rfl
+theorem andThenM_err {α : Type} (p : Panic) (k : α → Bool) : andThenM (.error p : M α) k = true := rfl
+theorem andThenM_ite {α : Type} (c : Prop) [Decidable c] (a b : M α) (k : α → Bool) :
+    andThenM (if c then a else b) k = if c then andThenM a k else andThenM b k := by split <;> rfl
+theorem andThenM_bind {α β : Type} (x : M α) (f : α → M β) (k : β → Bool) :
+    andThenM (x >>= f) k = andThenM x (fun a => andThenM (f a) k) := by
+  cases x <;> rfl
+/-- whatever an opaque computation (a loop over the grid, a callee) returns, the check goes on -/
+theorem andThenM_all {α : Type} (x : M α) (k : α → Bool) (h : ∀ a, k a = true) : andThenM x k = true := by
+  cases x with
+  | ok a => exact h a
+  | error p => rfl
 
 theorem goOn_norm : goOn .norm = true := by decide
 theorem goOn_cont : goOn .cont = true := by decide
